@@ -83,6 +83,8 @@ struct Ctx {
     // A second, independent logger alive next to the one under test (cfg "side_logger"): a no-alloc logger on a stream of its own,
     // used through AWS_LOGUF by the same threads. Each logger's lines must reach its own sink only, whole, once and in order.
     int nloggers = 1;
+    bool deep_writer = false;
+    unsigned deep_acc = 0;
     int writer_logs = 0;        // background mode: the writer logs this many lines of its own through the logger
     bool writer_nested = false;
     bool have_side = false, side_cleaned = false;
@@ -230,10 +232,20 @@ void do_log(Ctx &c, int thr, const sim::Op &op);
 static const int WRITER_IDX = 6; // logical "thread" of lines logged by the writer itself (on the background thread)
 
 // ---- recording writer (configs 1, 2)
+// a writer that needs a good deal of stack (it escapes or compresses the line in a local buffer): the thread it runs on is the library's
+__attribute__((noinline)) static unsigned deep_frame(const struct aws_string *output) {
+    volatile unsigned char big[96 * 1024];
+    unsigned acc = 0;
+    for (size_t i = 0; i < sizeof big; i += 1024) { big[i] = (unsigned char)(i >> 10); acc += big[i]; } // touches every page, top to bottom of the frame
+    big[sizeof big - 1] = output->len ? output->bytes[0] : 0;
+    return acc + big[sizeof big - 1];
+}
+
 int rec_write(struct aws_log_writer *w, const struct aws_string *output) {
     (void)w;
     Ctx &c = *g;
     c.writes++;
+    if (c.deep_writer) { c.deep_acc += deep_frame(output); sim::probe("writer_used_96KiB_of_stack"); }
     // A writer is application code and may log through the same logger (e.g. "log file rotated"). With the background channel it runs on
     // the background thread, outside the channel's lock: the nested line is accepted like any other and must be written before clean-up
     // returns - also when it is logged while the final batch is being written.
@@ -597,6 +609,7 @@ RunInfo run(const sim::Plan &plan) {
     sim::set_observer(observer, &c);
     c.alloc_logs = c.mode == MODE_EXT_FG && plan.get("alloc_logs", 0) != 0;
     c.writer_logs = c.mode == MODE_EXT_BG ? (int)plan.get("writer_logs", 0) : 0;
+    c.deep_writer = plan.get("deep_writer", 0) != 0;
     if (c.alloc_logs) simalloc::set_release_hook(logging_release_hook, &c);
     int cf = (int)plan.get("create_fail", 0);
     bool init_failed = false;
@@ -755,6 +768,7 @@ void gen(uint64_t seed, int tier, sim::Plan &p) {
     p.cfg["init_level"] = r.pick(std::vector<int64_t>{6, 6, 6, 4, 3, 1, 0});
     if (mode == 2 && r.chance(0.3)) p.cfg["alloc_logs"] = 1;
     if (mode == 1 && r.chance(0.3)) p.cfg["writer_logs"] = r.range(1, 4);
+    if (mode <= 2 && r.chance(0.15)) p.cfg["deep_writer"] = 1;
     if (mode <= 2) p.cfg["date_format"] = r.pick(std::vector<int64_t>{1, 1, 0, 2}); // formatter option: ISO 8601, RFC 822, ISO 8601 basic
     p.cfg["alloc_realloc"] = r.chance(0.8);
     p.cfg["alloc_calloc"] = r.chance(0.8);
